@@ -75,6 +75,8 @@ type c17Case struct {
 	// a second history on ANOTHER pipeline of the same *gorm.DB, interleaved with Ops (op k of Other runs right
 	// before op k of Ops, the rest after): every pipeline must behave as if it were alone
 	Other *c17Case `json:"other,omitempty"`
+	// round 5 (c17_reentrant.go): after Ops, armed runs whose callbacks make registration calls themselves
+	Reent *c17Reent `json:"reent,omitempty"`
 }
 
 type c17Obs struct {
@@ -88,6 +90,7 @@ type c17Obs struct {
 	Get   []int           `json:"get,omitempty"`   // processor.Get(n) for n in c17GetNames: handler id, -1 = nil
 	Other *c17Obs         `json:"other,omitempty"`
 	Cross string          `json:"cross,omitempty"` // a call on the OTHER pipeline changed this pipeline's firing order
+	Reent *c17ReentObs    `json:"reent,omitempty"` // per armed run (c17_reentrant.go)
 }
 
 type builtin struct {
@@ -169,98 +172,8 @@ func c17Real(c c17Case) c17Obs {
 		app  func(o regOp) error
 	}
 	mk := func(c c17Case, obs *c17Obs) *side {
-		bs := c17Builtins[c.Pipeline]
-		p := db.Callback().Create()
-		switch c.Pipeline {
-		case "query":
-			p = db.Callback().Query()
-		case "update":
-			p = db.Callback().Update()
-		case "delete":
-			p = db.Callback().Delete()
-		case "row":
-			p = db.Callback().Row()
-		case "raw":
-			p = db.Callback().Raw()
-		}
-		for i, b := range bs {
-			if b.Match == "enableTransaction" && c.SkipTx {
-				continue
-			}
-			if e := p.Replace(b.Name, stub(1+i)); e != nil {
-				panic(e)
-			}
-		}
 		*obs = c17Obs{Errs: []string{}, Fns: []int{}, Steps: [][]int{}}
-		prev := p.Match(nil) // the builder VALUE of the previous chain (reuse)
-		return &side{c: c, obs: obs, app: func(o regOp) error {
-			if o.Chain == nil {
-				cb := p.Match(nil) // same as starting from the processor: &callback{processor: p}
-				if o.Before != "" {
-					cb = cb.Before(o.Before)
-				}
-				if o.After != "" {
-					cb = cb.After(o.After)
-				}
-				prev = cb
-				switch o.Op {
-				case "register":
-					return cb.Register(o.Name, stub(o.Hid))
-				case "replace":
-					return cb.Replace(o.Name, stub(o.Hid))
-				}
-				return p.Remove(o.Name)
-			}
-			ch := o.Chain
-			cb := prev
-			switch {
-			case ch.Reuse:
-				// the builder value of the previous op, used again
-			case len(ch.Start) == 0 || ch.Start[0] == "plain":
-				if len(ch.Steps) == 0 {
-					switch o.Op {
-					case "register":
-						return p.Register(o.Name, stub(o.Hid))
-					case "replace":
-						return p.Replace(o.Name, stub(o.Hid))
-					}
-					return p.Remove(o.Name)
-				}
-				cb = p.Match(nil)
-			case ch.Start[0] == "before":
-				cb = p.Before(ch.Start[1])
-			case ch.Start[0] == "after":
-				cb = p.After(ch.Start[1])
-			default:
-				switch ch.Start[1] {
-				case "true":
-					cb = p.Match(func(*gorm.DB) bool { return true })
-				case "false":
-					cb = p.Match(func(*gorm.DB) bool { return false })
-				default:
-					cb = p.Match(nil)
-				}
-			}
-			for _, st := range ch.Steps {
-				keep := cb
-				if st[0] == "before" {
-					cb = cb.Before(st[1])
-				} else {
-					cb = cb.After(st[1])
-				}
-				if ch.DropResults {
-					cb = keep // the value returned by the chain method is thrown away: `b.After(y); b.Register(…)`
-				}
-			}
-			prev = cb
-			switch o.Op {
-			case "register":
-				return cb.Register(o.Name, stub(o.Hid))
-			case "replace":
-				return cb.Replace(o.Name, stub(o.Hid))
-			}
-			return cb.Remove(o.Name)
-		}}
+		return &side{c: c, obs: obs, app: c17Applier(db, c.Pipeline, c.SkipTx, stub)}
 	}
 	exec := func(pipeline string) []int {
 		fired = []int{}
@@ -331,6 +244,102 @@ func c17Real(c c17Case) c17Obs {
 	return obs
 }
 
+// c17Applier stubs the built-ins of one pipeline of db (Replace by recording stubs) and returns the function that
+// performs one regOp on it through the real builder API, spelled as the op's Chain says (c17_build.go).
+func c17Applier(db *gorm.DB, pipeline string, skipTx bool, stub func(id int) func(*gorm.DB)) func(o regOp) error {
+	bs := c17Builtins[pipeline]
+	p := db.Callback().Create()
+	switch pipeline {
+	case "query":
+		p = db.Callback().Query()
+	case "update":
+		p = db.Callback().Update()
+	case "delete":
+		p = db.Callback().Delete()
+	case "row":
+		p = db.Callback().Row()
+	case "raw":
+		p = db.Callback().Raw()
+	}
+	for i, b := range bs {
+		if b.Match == "enableTransaction" && skipTx {
+			continue
+		}
+		if e := p.Replace(b.Name, stub(1+i)); e != nil {
+			panic(e)
+		}
+	}
+	prev := p.Match(nil) // the builder VALUE of the previous chain (reuse)
+	return func(o regOp) error {
+		if o.Chain == nil {
+			cb := p.Match(nil) // same as starting from the processor: &callback{processor: p}
+			if o.Before != "" {
+				cb = cb.Before(o.Before)
+			}
+			if o.After != "" {
+				cb = cb.After(o.After)
+			}
+			prev = cb
+			switch o.Op {
+			case "register":
+				return cb.Register(o.Name, stub(o.Hid))
+			case "replace":
+				return cb.Replace(o.Name, stub(o.Hid))
+			}
+			return p.Remove(o.Name)
+		}
+		ch := o.Chain
+		cb := prev
+		switch {
+		case ch.Reuse:
+			// the builder value of the previous op, used again
+		case len(ch.Start) == 0 || ch.Start[0] == "plain":
+			if len(ch.Steps) == 0 {
+				switch o.Op {
+				case "register":
+					return p.Register(o.Name, stub(o.Hid))
+				case "replace":
+					return p.Replace(o.Name, stub(o.Hid))
+				}
+				return p.Remove(o.Name)
+			}
+			cb = p.Match(nil)
+		case ch.Start[0] == "before":
+			cb = p.Before(ch.Start[1])
+		case ch.Start[0] == "after":
+			cb = p.After(ch.Start[1])
+		default:
+			switch ch.Start[1] {
+			case "true":
+				cb = p.Match(func(*gorm.DB) bool { return true })
+			case "false":
+				cb = p.Match(func(*gorm.DB) bool { return false })
+			default:
+				cb = p.Match(nil)
+			}
+		}
+		for _, st := range ch.Steps {
+			keep := cb
+			if st[0] == "before" {
+				cb = cb.Before(st[1])
+			} else {
+				cb = cb.After(st[1])
+			}
+			if ch.DropResults {
+				cb = keep // the value returned by the chain method is thrown away: `b.After(y); b.Register(…)`
+			}
+		}
+		prev = cb
+		switch o.Op {
+		case "register":
+			return cb.Register(o.Name, stub(o.Hid))
+		case "replace":
+			return cb.Replace(o.Name, stub(o.Hid))
+		}
+		return cb.Remove(o.Name)
+	}
+}
+
 // c17GetNames: the names asked of processor.Get after a history
 func c17GetNames(pipeline string) []string {
 	var out []string
@@ -391,7 +400,13 @@ func init() {
 			if len(line) > 0 {
 				var c c17Case
 				if json.Unmarshal(line, &c) == nil {
-					b, _ := json.Marshal(c17Real(c))
+					var o c17Obs
+					if c.Reent != nil {
+						o = c17ReentReal(c)
+					} else {
+						o = c17Real(c)
+					}
+					b, _ := json.Marshal(o)
 					out.Write(b)
 					out.WriteByte('\n')
 					out.Flush()
